@@ -1,6 +1,21 @@
 HOOK_COMMITS = []
-IMPLEMENTED = {"C05", "C09"}
+IMPLEMENTED = {"C01", "C05", "C09", "C14", "C18"}
 TABLE = {
+ "C01": {
+  "technique": "exhaustive enumeration of the 49x49 unit grid x operator forms + random exponents/values (proptest) against independent exponent arithmetic and the raw f32 operators",
+  "text": "All 2401 ordered pairs of grid units are crossed with all 52 operator forms (Quantity/Time/DimensionlessInteger binary and assign forms, bare-Unit forms, neg, abs, ==, orderings) and three value pairs; result unit, bit-exact value and panic/no-panic are compared with an independent model; named constants are checked against a parser of their names; conversions over all 49 units; plus random exponents up to |60| and arbitrary finite f32s. Exhaustive on the grid the quantifier names, sampled beyond it.",
+  "note": "Build with dimension checking on. Units are only observable through equality with Unit::new(m, s). i64 operands of Time/DimensionlessInteger are converted with the same `as f32` cast for the value oracle (accuracy of that cast is C18's subject).",
+ },
+ "C14": {
+  "technique": "property testing against closed-form kinematics with a running f32 error bound, exact operator/round-trip oracles, exhaustive unit x setter table",
+  "text": "State::update is compared with v+a*dt and p+v*dt+a*dt^2/2 evaluated in f64 under a derived rounding bound (x4), dt=0 must be the identity; setters are checked for effect, zeroing and rejection over all 49 units; command construction/accessors/quantity round-trips and State/Command arithmetic are compared bitwise with the component-wise f32 operators; mixed-kind command +/- must panic. Exploration with exhaustive finite tables.",
+  "note": "Finite inputs of moderate magnitude; dimension checking on; measured head-room (max |err|/bound) is reported in evidence.",
+ },
+ "C18": {
+  "technique": "property testing with stratified i64 generators against i128 reference arithmetic, ulp-bounded conversion oracles and a differential oracle for mixed operators",
+  "text": "19 integer operator forms are compared with exact i128 arithmetic on operands stratified over all magnitudes; Time/int->Quantity conversions are checked to 2/1 ulp and for monotonicity on neighbouring pairs, Quantity->Time to one f32 rounding + 1 ns, round trip to |t|*2^-22+1, rejection for the other 48 units exhaustively; every mixed Quantity/Time/DimensionlessInteger operator is compared bitwise (and panic-for-panic) with the Quantity operator on converted operands.",
+  "note": "Operands are constructed so the exact result fits in i64 and divisors are non-zero; seconds below 9e9.",
+ },
  "C05": {
   "technique": "metamorphic / history-invariant property testing over generated event histories (proptest + exhaustive short histories)",
   "text": "For each of the 14 stateful stream instantiations, all event-kind sequences up to length 5 and thousands of random histories up to 48 events are run on the real stream; after every event the no-stale-error invariant, get-purity (incl. a twin with a different get count), reset equivalence against a freshly constructed stream fed the suffix, and absent-deletion invariance are asserted exactly (bitwise modulo NaN/-0). Exploration: sampled histories, exhaustive only for short ones.",
